@@ -166,6 +166,9 @@ Definition run_heap_x86 : string -> string := run_cases heap_x86_case.
 (* ---------- C10: space independent of the number of repetitions ----------
    `main(n)` builds and drops a structure n times; the allocation frontier after n = 8 and after
    n = 32 iterations must coincide (and the heap invariant must hold at every boundary). *)
+Definition set_frontier (st : hstats) (f : Z) : hstats :=
+  {| boundaries := boundaries st; peak_in_use := peak_in_use st; last_frontier := if first_violation st then last_frontier st else Z.max (last_frontier st) f;
+     first_violation := first_violation st; pending := pending st; underrun := underrun st |}.
 Definition c10_x86_case (i r : sexp) : verdict :=
   match i with
   | L [Q _; p; lc; argss] =>
@@ -176,11 +179,21 @@ Definition c10_x86_case (i r : sexp) : verdict :=
               let runs := map (fun args =>
                                  let ref := run_linear lin_fuel p args in
                                  let tr := trace_linear lin_fuel p args in
-                                 let '(ob, _, st) := run_x86_heap_tr x86_outer x86_inner cs_s args tr in
-                                 (args, ref, ob, st)) argss in
+                                 let '(ob, sfin, st) := run_x86_heap_tr x86_outer x86_inner cs_s args tr in
+                                 (args, ref, ob, set_frontier st (hw sfin))) argss in
               match find (fun x => let '(_, ref, ob, st) := x in negb (obs_eqb ref ob && defined ref)) runs with
               | Some (args, ref, ob, _) =>
-                  VSkip ("runs not comparable for args " ++ show (sL sZ args) ++ ": " ++ show (s_obs ref) ++ " vs " ++ show (s_obs ob))
+                  (* the reference machine and the code disagree (C05/C06 decide that); the space property is still
+                     observable on the code alone: the high-water mark of heap writes after 8 and after 32 iterations *)
+                  let highs := map (fun x => let '(_, _, ob, st) := x in (defined ob, (last_frontier st - HEAP_BASE) / 64)) runs in
+                  match highs with
+                  | [(_, h2); (true, h8); (true, h32)] =>
+                      if Z.eqb h8 h32
+                      then VSkip ("runs not comparable for args " ++ show (sL sZ args) ++ ": " ++ show (s_obs ref) ++ " vs " ++ show (s_obs ob) ++ " (high-water constant)")
+                      else VViol ("class=heap-footprint-grows high-water mark of heap writes after 2/8/32 iterations: " ++ z_to_string h2 ++ "/" ++ z_to_string h8 ++ "/" ++ z_to_string h32
+                                  ++ " blocks (the code runs to completion; the AxCut reference run is " ++ show (s_obs ref) ++ ")")
+                  | _ => VSkip ("runs not comparable for args " ++ show (sL sZ args) ++ ": " ++ show (s_obs ref) ++ " vs " ++ show (s_obs ob))
+                  end
               | None =>
                   match find (fun x => let '(_, _, _, st) := x in match first_violation st with Some _ => true | None => false end) runs with
                   | Some (args, _, _, st) =>
